@@ -93,10 +93,14 @@ def load_known(pid):
 def sig_matches(entry_sig, sig):
     """An entry signature matches a violation signature if every key it lists is equal
     (entry value may be a list of admissible values)."""
+    import re as _re
     for k, v in entry_sig.items():
         if k not in sig:
             return False
-        if isinstance(v, list):
+        if isinstance(v, dict) and "regex" in v:
+            if not _re.search(v["regex"], str(sig[k])):
+                return False
+        elif isinstance(v, list):
             if sig[k] not in v:
                 return False
         elif sig[k] != v:
